@@ -516,6 +516,27 @@ func genVersions(rng *rand.Rand, n int) []verTuple {
 		}
 		out = append(out, t)
 	}
+	// version-embedded vs explicit prerelease / metadata: every combination
+	for mask := 0; mask < 16; mask++ {
+		t := verTuple{Version: "v2.3.4"}
+		if mask&1 != 0 {
+			t.Version += "-rc.1"
+		}
+		if mask&2 != 0 {
+			t.Version += "+git.abc"
+		}
+		if mask&4 != 0 {
+			t.Pre = "beta2"
+		}
+		if mask&8 != 0 {
+			t.Meta = "b77"
+		}
+		out = append(out, t)
+	}
+	// epochs as written: leading zeros, large
+	for _, e := range []string{"0", "00", "010", "08", "7", "12", "99999"} {
+		out = append(out, verTuple{Version: "1.2.3", Epoch: e})
+	}
 	// near-misses that must not parse, and edge shapes that must
 	for _, s := range []string{"1.2.3.4", "01.2.3", "1.02.3", "1.2.03", "1.2.3-", "1.2.3-01", "1.2.3-rc..1", "1.2.3+", "1.2.3+a..b", " 1.2.3", "1.2.3 ", "1.2.x",
 		"v", "1.2.3-rc_1", "1.2.3+meta+meta", "1.2.3-rc.01", "1.2.3-rc.0", "1.2.3-0", "1.2.3-00", "1.2.3-0a", "1..3", ".1.2", "1.2.", "V1.2.3", "vv1.2.3",
